@@ -571,7 +571,7 @@ VALID_METERS = [[4, 4], [3, 4], [2, 4], [6, 8], [12, 8], [5, 4], [7, 8], [2, 2],
 INVALID_METERS = [[4, 0], [4, 3], [4, 5], [4, 6], [3, 12], [4, 7], [2, 100], [4, 0.5], [3, 1.5], [4, 2.5], [4, 0.25]]
 # units next to powers of two, negative units, large units
 NEAR_POW2 = [[4, u] for k in range(1, 12) for u in (2 ** k - 1, 2 ** k + 1, 2 ** k - 2, 2 ** k + 2) if u > 0 and u & (u - 1)] + [[4, -1], [3, -2], [4, -4], [2, -8], [4, -3], [4, 96], [4, 48], [4, 1000], [3, 24]]
-BIG_VALID = [[3, 128], [5, 256], [2, 1024], [7, 2048]]
+BIG_VALID = [[3, 128], [5, 256], [2, 1024], [7, 2048], [4, 4096], [3, 8192], [2, 65536], [128, 4096]]
 C13_NAMES = ["C", "E", "G", "A", "F#", "Bb", "D", "B#", "Cb"]
 
 
